@@ -23,11 +23,11 @@ RQ = [None, 1]
 
 BOUNDS = {
     "quick": {
-        "configs": "|data| 0..5 x chunk size 1..3 x workers 1..2 x {imap, imap_unordered} (72) with work queue "
-                   "bound in {None, 1, 1.0 (float)}, results queue bound in {None, 1}, list / lazily generated "
-                   "input and FunctorPool / FactoryFunctorPool (quota None, 1, 2) rotated through (covering "
-                   "rotation); + the full product of {wq} x {rq} x {pool kind} x {ordered} x {lazy} (48) at "
-                   "|data| = 5, chunk 2, 2 workers; + repeated values",
+        "configs": "full product |data| 0..5 x chunk size 1..3 x workers 1..2 x {imap, imap_unordered} x work queue "
+                   "bound {None, 1, 1.0 (float)} x results queue bound {None, 1} (432) with list / lazily generated "
+                   "input and FunctorPool / FactoryFunctorPool (quota None, 1, 2) rotated through; + the full "
+                   "product of {wq} x {rq} x {pool kind} x {ordered} x {lazy} (48) at |data| = 5, chunk 2, "
+                   "2 workers; + repeated values",
         "forced_schedules": ["delayed feeder start (SendWorkThread subclass whose run() sleeps 0.3 s) x "
                              "{imap, imap_unordered} x {FunctorPool, FactoryFunctorPool}, followed by a normal "
                              "second call",
@@ -62,9 +62,7 @@ def cases(tier, seed):
     quick = tier != "thorough"
     if quick:
         k = 0
-        for n, cs, w, ordered in itertools.product(range(0, 6), (1, 2, 3), (1, 2), (True, False)):
-            wq = WQ[k % 3]
-            rq = RQ[(k // 3) % 2]
+        for n, cs, w, ordered, wq, rq in itertools.product(range(0, 6), (1, 2, 3), (1, 2), (True, False), WQ, RQ):
             lazy = (k // 2) % 2 == 1
             pool = "factory" if (k // 5) % 2 else "functor"
             quota = [None, 1, 2][(k // 7) % 3] if pool == "factory" else None
